@@ -1,3 +1,84 @@
-(* C15 - Events, promises and notifiers deliver exactly the right calls. Statements only (filled in below). *)
-From Coq Require Import NArith List.
-From Verif.C15_Events Require Import Model ModelPromise ModelNotifier.
+(* C15 - Events, promises and notifiers deliver exactly the right calls. Statements only.
+   Proved for all schedules: the WithMaxTriggerCount clause at hook level (a), the promise clause (b), the notifier
+   clause (c). NOT proved (full statements kept as Prop definitions in ProofsEvent.v, covered by the correspondence
+   check only): trigger_exactly_once_full_statement, link_full_statement, max_trigger_count_event_full_statement. *)
+From Coq Require Import NArith List Permutation PeanoNat.
+From Verif.C15_Events Require Import Model ModelPromise ModelNotifier ProofsEvent ProofsPromise ProofsNotifier.
+Import ListNotations.
+
+(* (a) WithMaxTriggerCount(n) on a hook: under ANY interleaving of the atomic steps of any number of concurrent
+   Trigger/Hook/Unhook/LinkTo callers, invocations so far + walkers that passed the hook's count test and are about
+   to invoke it = min(n, number of triggers that reached the hook) (all of them when there is no limit). *)
+Theorem C15_max_trigger_count_partial : forall acts n h, let s := run init acts in
+  nth_error (hooks s) n = Some h ->
+  N.of_nat (length (calls_of s n) + pend n s) = if N.eqb (h_max h) 0 then h_cnt h else N.min (h_cnt h) (h_max h).
+Proof. exact max_trigger_count_hook. Qed.
+
+(* ... hence, when no Trigger is running: exactly min(n, #triggers that reached it) invocations. *)
+Theorem C15_max_trigger_count_quiescent : forall acts n h, let s := run init acts in
+  quiescent s -> nth_error (hooks s) n = Some h -> h_max h <> 0%N ->
+  N.of_nat (length (calls_of s n)) = N.min (h_max h) (h_cnt h).
+Proof. exact max_trigger_count_hook_quiescent. Qed.
+
+(* (b) promise.Event: every callback identity is in exactly one place (registered / pending in one thread / called once /
+   unsubscribed before the trigger), for every interleaving of Trigger, OnTrigger, unsubscribe and the callback calls *)
+Theorem C15_promise : forall l c, let s := prun pinit l in
+  pquiescent s -> p_cbs s = None -> c < p_next s ->
+  count_occ Nat.eq_dec (map fst (p_log s)) c + count_occ Nat.eq_dec (p_removed s) c = 1.
+Proof. exact promise_exactly_once. Qed.
+
+Theorem C15_promise_at_most_once : forall l c, count_occ Nat.eq_dec (map fst (p_log (prun pinit l))) c <= 1.
+Proof. exact promise_at_most_once. Qed.
+
+Theorem C15_promise_removed_means_unsubscribed_before_trigger : forall l c, In c (p_removed (prun pinit l)) ->
+  exists l1 l2 cs, l = l1 ++ PAUnsub c :: l2 /\ p_cbs (prun pinit l1) = Some cs /\ In c cs.
+Proof. exact promise_removed_before_trigger. Qed.
+
+Theorem C15_promise_args : forall l c v, In (c, v) (p_log (prun pinit l)) -> p_val (prun pinit l) = Some v.
+Proof. exact promise_args. Qed.
+
+Theorem C15_promise_not_before_trigger : forall l, (exists c, p_cbs (prun pinit l) = Some c) ->
+  p_log (prun pinit l) = [] /\ pending (prun pinit l) = [].
+Proof. exact promise_not_triggered_no_call. Qed.
+
+(* (c) value notifier (code after the fixes a95de67, f215c7a): Wait returns success only if there is a Notify(value)
+   step before which the listener already existed (was created) and its deregistered flag was still false *)
+Theorem C15_notifier : forall acts l, In (l, ROk) (wait_results (nrun VCur ninit acts)) ->
+  exists a1 a2 x1 v, acts = a1 ++ NANotify v :: a2 /\
+                     nth_error (lsts (nrun VCur ninit a1)) l = Some x1 /\ l_val x1 = v /\ l_dereg x1 = false.
+Proof. exact notifier_success_only_if_notified. Qed.
+
+(* the pinned code (D15a, D15b) and the code after the first fix only (D15c) violate it *)
+Theorem C15_refuted_notifier_reuse :
+  In (1, ROk) (wait_results (nrun VPinned ninit d15a_history)) /\
+  (forall a1 a2 v, d15a_history = a1 ++ NANotify v :: a2 -> nth_error (lsts (nrun VPinned ninit a1)) 1 = None).
+Proof. exact notifier_refuted_reuse_pinned. Qed.
+Theorem C15_refuted_notifier_dereg_race :
+  In (0, ROk) (wait_results (nrun VPinned ninit d15b_history)) /\ has_notify d15b_history = false.
+Proof. exact notifier_refuted_dereg_race_pinned. Qed.
+Theorem C15_refuted_notifier_shared_entry :
+  In (0, ROk) (wait_results (nrun VMid ninit d15c_history)) /\
+  (forall a1 a2 v, d15c_history = a1 ++ NANotify v :: a2 ->
+     exists x, nth_error (lsts (nrun VMid ninit a1)) 0 = Some x /\ l_dereg x = true).
+Proof. exact notifier_refuted_shared_entry_mid. Qed.
+
+(* non-vacuity *)
+Example C15_ex_limit : quiescent (run init ex_limit) /\ map h_cnt (hooks (run init ex_limit)) = [3%N; 3%N].
+Proof. split; [exact ex_limit_quiescent | vm_compute; reflexivity]. Qed.
+Example C15_ex_promise : pquiescent (prun pinit pex) /\ p_cbs (prun pinit pex) = None.
+Proof. split; [exact pex_quiescent | vm_compute; reflexivity]. Qed.
+Example C15_ex_notifier :
+  In (0, ROk) (wait_results (nrun VCur ninit [NAListener 2%N; NAWait 0; NANotify 2%N; NAStep 0 CChan; NAStep 0 CCtx; NAStep 0 CCtx; NAStep 0 CCtx; NAStep 0 CCtx])).
+Proof. vm_compute. auto. Qed.
+
+Print Assumptions C15_max_trigger_count_partial.
+Print Assumptions C15_max_trigger_count_quiescent.
+Print Assumptions C15_promise.
+Print Assumptions C15_promise_at_most_once.
+Print Assumptions C15_promise_removed_means_unsubscribed_before_trigger.
+Print Assumptions C15_promise_args.
+Print Assumptions C15_promise_not_before_trigger.
+Print Assumptions C15_notifier.
+Print Assumptions C15_refuted_notifier_reuse.
+Print Assumptions C15_refuted_notifier_dereg_race.
+Print Assumptions C15_refuted_notifier_shared_entry.
